@@ -124,7 +124,7 @@ pub fn case(ctx: &Ctx, shard: usize, index: u64, rep: &mut Report) {
 }
 
 pub fn run(ctx: &Ctx) -> (Report, String) {
-    let per_shard = ctx.n(600, 30000);
+    let per_shard = ctx.n(3000, 40000);
     let reps = par_shards(64, ctx.threads, |s| {
         let mut rep = Report::new();
         for i in 0..per_shard {
@@ -135,7 +135,7 @@ pub fn run(ctx: &Ctx) -> (Report, String) {
     let mut rep = Report::merge_all(reps);
     if ctx.is_main() {
         let m = ctx.scale_pct;
-        rep.require("sequences_completed", if ctx.tier == Tier::Thorough { 1_000_000 } else { 25_000 } * m / 100);
+        rep.require("sequences_completed", if ctx.tier == Tier::Thorough { 2_000_000 } else { 150_000 } * m / 100);
         for k in ["mode=sorenson", "mode=standard", "end_phase=0", "end_phase=1", "end_phase=2", "end_phase=3", "end_phase=4", "end_phase=5", "end_phase=6", "end_phase=7", "kind=I", "kind=P", "kind=D", "bigram:II", "bigram:IP", "bigram:PI", "bigram:PP", "bigram:DP", "bigram:PD"] {
             rep.require(k, 100 * m / 100);
         }
